@@ -6,8 +6,9 @@ Harnesses: harness/pkg/supervisor/c20_*_test.go (business controllers through Su
 harness/pkg/object/rawconfigtrafficcontroller/c20_*_test.go (the same plus traffic objects through
 RawConfigTrafficController -> TrafficController).
 
-Phases (VERIF_PHASES): mc, mbt, tv, tvl (package supervisor), tmbt, ttv, ttvl (package rawconfigtrafficcontroller);
-tvl / ttvl = TV with long bursts of snapshots and slow watchers.
+Phases (VERIF_PHASES): mc, mcn (negative controls of the model), mbt, tv, tvl, tvs (package supervisor), tmbt, ttv, ttvl, ttvs (package rawconfigtrafficcontroller);
+tvl / ttvl = TV with long bursts of snapshots and slow watchers; tvs / ttvs = TV of histories whose first burst of snapshots
+arrives while the supervisor is starting (watchers being registered).
 """
 import random
 import re
@@ -36,12 +37,14 @@ def contract_cfg(names, biz, gate, vers, maxsnaps):
     return "SPECIFICATION CSpec\n" + consts(names, biz, gate, [], vers, maxsnaps) + CONTRACT_INV
 
 
-def impl_cfg(names, biz, gate, pipe, vers, maxsnaps, watchers, panics, pinned=False, recover=True, cap=10, drop=False):
+def impl_cfg(names, biz, gate, pipe, vers, maxsnaps, watchers, panics, pinned=False, recover=True, cap=10, drop=False,
+             atomic_register=True, contract_only=False):
+    inv = IMPL_INV.replace(" RegistryIsSnapshot WatcherViews", "") if contract_only else IMPL_INV
     return ("SPECIFICATION ISpec\n" + consts(names, biz, gate, pipe, vers, maxsnaps, model=True) +
             "  Watchers = %s\n  MaxPanics = %d\n  KindChangeIsUpdate = %s\n  Recover = %s\n  ChanCap = %d\n  DropWhenFull = %s\n"
-            "VIEW view\nSYMMETRY NameSym\n"
+            "  AtomicRegister = %s\nVIEW view\nSYMMETRY NameSym\n"
             % (sset(watchers), panics, "TRUE" if pinned else "FALSE", "TRUE" if recover else "FALSE", cap,
-               "TRUE" if drop else "FALSE") + IMPL_INV)
+               "TRUE" if drop else "FALSE", "TRUE" if atomic_register else "FALSE") + inv)
 
 
 def gen_cfg(names, nameseq, biz, gate, kindseq, vers, maxsnaps, panics, canonical=True):
@@ -60,7 +63,8 @@ def run(ctx):
                        "panics) replayed in lock-step on a real Supervisor (and RawConfigTrafficController/TrafficController) fed "
                        "through the mocked cluster syncer, callbacks and live set compared per step and name with the contract; "
                        "traces = seeded random longer histories (bursts of 1-3 snapshots, and bursts of 14-32 snapshots pushed while "
-                       "the handlers are held back by gated / slow callbacks; panicking callbacks) recorded from the real "
+                       "the handlers are held back by gated / slow callbacks; first burst of 5-8 snapshots pushed while the "
+                       "supervisor is being created and its watchers are being registered; panicking callbacks) recorded from the real "
                        "code and validated by TLC against the contract; non-trivial = distinct behaviours/traces with at least one "
                        "inherit, close or kind change")
     ctx.assumptions += [
@@ -72,6 +76,14 @@ def run(ctx):
         "a call that panics counts as the call having been made; panics are scripted per (snapshot, name)",
         "the order between Close(old) and Init(new) of a kind change is not fixed by the property text and is left free; "
         "a kind change across watchers (controller <-> traffic object) is never pushed in the middle of a burst",
+        "start-up: the business controllers and the traffic objects each begin to be reconciled at some moment before "
+        "supervisor.MustNew returns, from the then latest snapshot (earlier snapshots are coalesced into it for that group); "
+        "which moment is left free (searched by TLC); from then on every snapshot counts",
+        "start-up schedules are widened only through code the supervisor calls anyway while it starts (Init of a test-only "
+        "system controller, Category() of the test-only kinds when called by the category filter inside ObjectRegistry.NewWatcher) "
+        "and, in package supervisor, by re-doing the statements of MustNew with a pause between newObjectRegistry and NewWatcher; "
+        "at most 8 snapshots are pushed during a start-up (the supervisor's handler goroutine only starts at the end of MustNew "
+        "and a watcher's channel buffers 10 events)",
     ]
     # three independent strands (model checking / package supervisor / package rawconfigtrafficcontroller)
     # run side by side: TLC and the Go harnesses mostly wait for different things
@@ -85,10 +97,13 @@ def run(ctx):
         return f
 
     strands = [strand(("mc", _mc, ())),
-               strand(("mbt", _mbt, (SUP,)), ("tv", _tv, (SUP, False))),
-               strand(("tmbt", _mbt, (RCTC,)), ("ttv", _tv, (RCTC, False))),
-               strand(("tvl", _tv, (SUP, True))),
-               strand(("ttvl", _tv, (RCTC, True)))]
+               strand(("mcn", _mc_controls, ())),
+               strand(("mbt", _mbt, (SUP,)), ("tv", _tv, (SUP, "std"))),
+               strand(("tmbt", _mbt, (RCTC,)), ("ttv", _tv, (RCTC, "std"))),
+               strand(("tvl", _tv, (SUP, "long"))),
+               strand(("ttvl", _tv, (RCTC, "long"))),
+               strand(("tvs", _tv, (SUP, "startup"))),
+               strand(("ttvs", _tv, (RCTC, "startup")))]
     with ThreadPoolExecutor(len(strands)) as ex:
         futs = [ex.submit(f) for f in strands]
         errs = []
@@ -132,7 +147,12 @@ def _mc(ctx):
     for label, cfg in runs:
         r = ctx.tlc_mc("LifecycleImpl", cfg, label="impl (kind change = delete+create) refines contract: " + label, timeout=1500)
         ctx.log("impl layer refines the contract (%s): %d distinct states" % (label, r.distinct))
-    # the diff as originally pinned (kind change classified as update, finding F18) does not: TLC must find that
+
+
+def _mc_controls(ctx):
+    """negative controls: shapes of the implementation layer that TLC must reject"""
+    q = ctx.quick
+    # the diff as originally pinned (kind change classified as update, finding F18) does not refine the contract: TLC must find that
     # (a lead for the real code, never a verdict; here it also shows that the refinement check is not vacuous)
     r = ctx.tlc_mc("LifecycleImpl", impl_cfg(["a", "b"], ["K1", "K2"], [], [], [1, 2], 2, ["sup"], 0, pinned=True),
                    label="impl with kind change = update (F18 shape)", expect_ok=False, count=False, timeout=600)
@@ -148,6 +168,18 @@ def _mc(ctx):
         ctx.log("model sanity: dropping the event of a full watcher channel violates %s" % r.violated)
     else:
         ctx.inconclusive("TLC does not reject the dropped watcher event: the slow-watcher part of the refinement check is vacuous\n" + r.out[-2000:])
+    # a watcher that takes its first view of the registry under the lock but is added to or.watchers only later misses the
+    # snapshots applied in between and is never caught up (the registry only ever sends diffs): TLC must find that, too
+    for label, cfg in [("sup watcher", impl_cfg(["a", "b"], ["K1"], [], [], [1, 2], 2, ["sup"], 0, atomic_register=False, contract_only=True)),
+                       ("both watchers", impl_cfg(["a", "b"], ["K1"], ["G1"], [], [1], 2, ["sup", "rctc"], 0, atomic_register=False,
+                                                         contract_only=True))]:
+        r = ctx.tlc_mc("LifecycleImpl", cfg, label="impl with a watcher registered after its first view was taken (%s)" % label,
+                       expect_ok=False, count=False, timeout=600)
+        if r.violated:
+            ctx.log("model sanity: late registration of a watcher (%s) violates %s" % (label, r.violated))
+        else:
+            ctx.inconclusive("TLC does not reject the late registration of a watcher: the start-up part of the refinement check "
+                             "is vacuous\n" + r.out[-2000:])
     if not q:
         r = ctx.tlc_mc("LifecycleImpl", impl_cfg(["a", "b"], ["K1", "K2"], [], [], [1, 2], 2, ["sup"], 1, recover=False),
                        label="impl without recover()", expect_ok=False, count=False, timeout=600)
@@ -344,28 +376,53 @@ def _long_burst_coverage(ctx, ev, short):
     ctx.nontrivial({"p": short, "long-bursts": full})
 
 
-def _tv(ctx, pkg, long_bursts):
+def _startup_coverage(ctx, ev, short, n):
+    """vacuity guard of the start-up group: histories in which a watcher was registered (NewWatcher ran its filter over a
+    non-empty registry) while further snapshots were waiting at the syncer channel"""
+    notes = [e for e in ev if e.get("ev") == "note"]
+    inw = [e for e in notes if e["site"].startswith("NewWatcher<-")]
+    sites = {}
+    for e in notes:
+        c = sites.setdefault(e["site"], {"pauses": 0, "registry_got_on": 0, "registry_stood_still": 0})
+        c["pauses"] += 1
+        if e["taken"] >= 2:
+            c["registry_got_on"] += 1        # a snapshot was applied completely while the caller was in its pause point
+        elif e["stagnated"]:
+            c["registry_stood_still"] += 1   # ... the caller held the registry's lock
+    ctx.cov["%s_startup" % short] = {"histories": n, "sites": sites}
+    if len(inw) < max(3, n // 3):
+        ctx.inconclusive("C20: only %d of %d start-up histories of %s had a watcher registered over a non-empty registry while "
+                         "snapshots were waiting: the start-up class is not exercised" % (len(inw), n, short))
+    ctx.nontrivial({"p": short, "startups-with-registration-under-load": len(inw)})
+
+
+def _tv(ctx, pkg, which):
+    long_bursts = which == "long"
     short = pkg.split("/")[-1]
     sup = pkg == SUP
     biz, gate = (["K1", "K2"], []) if sup else (["K1", "K2"], ["G1", "P1"])
     # group A: the kind of a live name never changes; group B: arbitrary histories
     # group C: long bursts (14..32 snapshots back to back) while the handler goroutines are kept busy by gated / slow
     # callbacks, so that many more events are outstanding than a watcher's event channel buffers
-    groups = [("same-kind", 0, 0, (10, 20) if ctx.quick else (100, 30)), ("kind-changes", 1, 0, (10, 20) if ctx.quick else (60, 30)),
-              ("long-bursts", 1, 1, (LONG_Q if ctx.quick else LONG_T))]
+    # group D: the first burst (5..8 snapshots) is pushed while the supervisor is being created
+    groups = [("same-kind", 0, 0, (10, 20) if ctx.quick else (100, 30), "std"), ("kind-changes", 1, 0, (10, 20) if ctx.quick else (60, 30), "std"),
+              ("long-bursts", 1, 1, (LONG_Q if ctx.quick else LONG_T), "long"),
+              ("start-up", 1, 0, ((16, 14) if ctx.quick else (160, 20)), "startup")]
     last_group = False
-    if long_bursts:
+    if which != "std":
         rc, out = ctx.go_test(pkg, "^TestVerifC20Build$")
         if rc != 0:
             ctx.inconclusive("C20 harness does not run in %s:\n%s" % (pkg, out[-3000:]))
-    for gname, kc, lb, (n, steps) in [g for g in groups if bool(g[2]) == long_bursts]:
+    for gname, kc, lb, (n, steps), _w in [g for g in groups if g[4] == which]:
         if last_group:
             break
-        tp = ctx.path("c20_%s_trace_%d.ndjson" % (short, kc + 2 * lb))
+        su = 1 if which == "startup" else 0
+        salt = kc + 2 * lb + 4 * su
+        tp = ctx.path("c20_%s_trace_%d.ndjson" % (short, salt))
         for attempt in (1, 2):
             rc, out = ctx.go_test(pkg, "^TestVerifC20Trace$", env={"VERIF_OUT": tp, "VERIF_N": n, "VERIF_STEPS": steps, "VERIF_NAMES": 3,
-                                                                  "VERIF_KINDCHANGE": kc, "VERIF_SALT": kc + 2 * lb,
-                                                                  "VERIF_LONGBURST": lb}, timeout=1500)
+                                                                  "VERIF_KINDCHANGE": kc, "VERIF_SALT": salt,
+                                                                  "VERIF_LONGBURST": lb, "VERIF_STARTUP": su}, timeout=1500)
             ev = ctx.read_ndjson(tp)
             if any(e.get("ev") == "starved" for e in ev):
                 ctx.inconclusive("C20: the harness process of %s did not get CPU time for 30 s (overloaded machine); no observation" % pkg)
@@ -387,13 +444,15 @@ def _tv(ctx, pkg, long_bursts):
             ctx.inconclusive("C20: trace without callbacks in %s" % pkg)
         if lb and not last_group:
             _long_burst_coverage(ctx, ev, short)
+        if su and not last_group:
+            _startup_coverage(ctx, ev, short, n)
         # validate; a rejected history is reported, cut out, and the rest validated again
         rounds = 0
         while ev and rounds < (8 if ctx.quick else 30):
             rounds += 1
-            p = ctx.write_ndjson("c20_%s_tv_%d_%d.ndjson" % (short, kc + 2 * lb, rounds), ev)
-            # (long bursts: every new spec of a name has a fresh version, at most one per snapshot)
-            tr = ctx.tlc_trace("Lifecycle_Trace", trace_cfg(["a", "b", "c"], biz, gate, range(1, steps + 2) if lb else (1, 2, 3)), p,
+            p = ctx.write_ndjson("c20_%s_tv_%d_%d.ndjson" % (short, salt, rounds), ev)
+            # (long bursts, start-up: every new spec of a name has a fresh version, at most one per snapshot)
+            tr = ctx.tlc_trace("Lifecycle_Trace", trace_cfg(["a", "b", "c"], biz, gate, range(1, steps + 2) if lb or su else (1, 2, 3)), p,
                                timeout=1200)
             segs = _segments(ev)
             if tr.accepted:
